@@ -793,7 +793,35 @@ func ruleKindSwitch(w *World, r *Report) {
 				"every kind that can reach the switch is handled", fmt.Sprintf("no case for kind(s) %v: such a node would be treated as an event (or skipped)", missing))
 		})
 		if found == 0 {
-			r.Unresolved(rule, "no switch over the node kind found in "+t.name)
+			// the same dispatch written as an if / else-if chain: the kinds the function compares a node kind with
+			name := t.name
+			if t.recv != "" {
+				name = "(*" + t.recv + ")." + t.name
+			}
+			fn := w.Fn(name)
+			covered := map[int64]bool{}
+			if fn != nil {
+				EachInstr(fn, func(in ssa.Instruction) {
+					if bo, ok := in.(*ssa.BinOp); ok {
+						if _, c, _, okk := k.kindTest(bo); okk {
+							covered[c] = true
+						}
+					}
+				})
+			}
+			if len(covered) == 0 {
+				r.Unresolved(rule, "no dispatch over the node kind found in "+t.name)
+				continue
+			}
+			var missing []string
+			for _, kn := range kindNames {
+				if covered[kindVal[kn]] || t.mayOmit[kn] || (t.needsDflt && kn == "event") {
+					continue
+				}
+				missing = append(missing, kn)
+			}
+			r.Check(len(missing) == 0, rule, w.Pos(fd.Pos()), t.name, fmt.Sprintf("if-chain over node kind: %d kinds compared", len(covered)),
+				"every kind that can reach the dispatch is handled", fmt.Sprintf("no arm for kind(s) %v: such a node would be skipped", missing))
 		}
 	}
 }
